@@ -863,7 +863,9 @@ def judge_C05(W, ex):
                 if el < lim - 1e-6:
                     bad('C05.d', 'timed-out-before-limit', 'job %r failed after %.3fs, limit %.2fs' % (uid, el, lim))
                 late = el - lim
-                if late > 1.0 + 0.15 * len(W.jobs) + 0.05 and pc.get('threads', True):
+                # (not in runs in which the enforcing thread itself is descheduled inside the TERM/wait/KILL sequence)
+                if late > 1.0 + 0.15 * len(W.jobs) + 0.05 and pc.get('threads', True) and \
+                        not W.case.get('th_preempt'):
                     bad('C05.a', 'timed-out-late', 'job %r failed %.3fs after its limit expired (scan period 1s)'
                         % (uid, late))
             # (b) the process that ran it is gone
@@ -873,7 +875,8 @@ def judge_C05(W, ex):
                 p = w['proc']
                 if not p.dead:
                     bad('C05.b', 'worker-survived-hard-limit', 'job %r: pid %d still alive at the end' % (uid, pid))
-                elif rec.first and p.death_time is not None and p.death_time - rec.first[1] > 2.5:
+                elif rec.first and p.death_time is not None and p.death_time - rec.first[1] > 2.5 and \
+                        not W.case.get('th_preempt'):
                     bad('C05.b', 'worker-lingered', 'job %r: pid %d died %.2fs after the job was failed'
                         % (uid, pid, p.death_time - rec.first[1]))
         else:
